@@ -281,6 +281,11 @@ func runFree(a args, spec *graphSpec, r *h.Rand, idx int) {
 		sp, started := pos["S:"+name]
 		if started {
 			for cur := s; cur != nil; cur = cur.g.parent {
+				if cur != s && cur.inner != nil && len(cur.inner.also) > 0 {
+					// the pipeline is included by several stages: it may run as soon as ONE of them has started, so the
+					// dependencies of this particular includer say nothing about its inner stages
+					break
+				}
 				for _, dn := range cur.spec.Deps {
 					d := cur.g.by[dn]
 					if d.spec.Outcome == oCondFalse {
